@@ -368,7 +368,11 @@ func checkC17Tok(c c17TokCase) *evid.Fail {
 		case "dispatch":
 			tok := generic.NewGenericTokenizer()
 			tok.ClearCharacterStates()
-			states := []tokenizers.ITokenizerState{nil, tok.WordState(), tok.SymbolState()}
+			// #3: a word state of the caller's own (digits only continue a word), not the tokenizer's
+			other := generic.NewGenericWordState()
+			other.ClearWordChars()
+			other.SetWordChars('0', '9', true)
+			states := []tokenizers.ITokenizerState{nil, tok.WordState(), tok.SymbolState(), other}
 			for i, r := range c.Regs {
 				if r.Kind == 2 {
 					tok.ClearCharacterStates()
@@ -398,6 +402,23 @@ func checkC17Tok(c c17TokCase) *evid.Fail {
 					}
 					res = evid.F(sig, "after %v GetCharacterState(%#x) = %T(%v), want state #%d", c.Regs, ch, got, got != nil, model(ch))
 					return
+				}
+				if model(ch) == 3 && ch > 0 {
+					// the registered object itself reads the characters handed to it
+					text := string(ch) + "9a"
+					want := other.NextToken(rio.NewStringScanner(text), tok).Value()
+					if want == "" {
+						want = string(ch) // a state that takes nothing leaves one character to the tokenizer
+					}
+					toks := tok.TokenizeBuffer(text)
+					if len(toks) == 0 || toks[0].Value() != want {
+						v := "nothing"
+						if len(toks) > 0 {
+							v = fmt.Sprintf("%q", toks[0].Value())
+						}
+						res = evid.F("dispatch-not-the-registered-object", "after %v the text %q starts with a character registered to the caller's word state (only digits are word characters there), which reads %q from it; the tokenizer delivered %s", c.Regs, text, want, v)
+						return
+					}
 				}
 			}
 		case "word", "blank":
@@ -481,7 +502,11 @@ func TestC17_RapidTokenizerMaps(t *testing.T) {
 			}
 			maxRef := 1
 			if mode == "dispatch" {
-				maxRef = 2
+				maxRef = 3
+			}
+			if rapid.IntRange(0, 7).Draw(rt, "beyond") == 0 {
+				// an upper bound past the last configurable character: the range is cut there, not dropped
+				b = rapid.SampledFrom([]rune{0xffff, 0x10000, 0x10ffff}).Draw(rt, "beyondend")
 			}
 			r := c17Op{0, a, b, rapid.IntRange(0, maxRef).Draw(rt, "ref")}
 			for _, old := range regs {
@@ -509,6 +534,9 @@ func TestC17_RapidTokenizerMaps(t *testing.T) {
 			}
 			if ch >= 0xd800 && ch <= 0xdfff {
 				ch = 0x2000
+			}
+			if rapid.IntRange(0, 11).Draw(rt, "astral") == 0 {
+				ch = rapid.SampledFrom([]rune{0x10000, 0x1f600, 0x2003c, 0x10ffff}).Draw(rt, "astralch") // never configurable
 			}
 			_ = m
 			sb.WriteRune(ch)
@@ -541,8 +569,8 @@ func c17IsoProbe(kind string, obj interface{}, probes []rune) string {
 			st := obj.(*generic.GenericTokenizer).GetCharacterState(ch)
 			fmt.Fprintf(&sb, "%T;", st)
 		default:
-			// a state reads its first character unconditionally and goes on while the characters are enabled
-			tk := obj.(tokenizers.ITokenizerState).NextToken(rio.NewStringScanner("\x01"+string(ch)), nil)
+			// a state reads characters while they are enabled: none or both of the two
+			tk := obj.(tokenizers.ITokenizerState).NextToken(rio.NewStringScanner(string(ch)+string(ch)), nil)
 			fmt.Fprintf(&sb, "%d;", len([]rune(tk.Value())))
 		}
 	}
